@@ -1,7 +1,7 @@
 (* C13  Trained models are valid: weights on the simplex (up to the count floor), variances above floors. *)
 From Coq Require Import Reals List.
 From BLE Require Import Num.InstR Model.GMM Model.KMeans Model.IVector Proofs.RLemmas Proofs.GMMLik Proofs.GMMStats Proofs.GMMMap
-     Proofs.Valid Proofs.KMeansR Proofs.IVectorR.
+     Proofs.Valid Proofs.ValidFit Proofs.KMeansR Proofs.IVectorR.
 Import ListNotations.
 Open Scope R_scope.
 
@@ -47,3 +47,21 @@ Theorem C13_ivector_covariances_at_or_above_floor inv (D t : nat) (floor : R) (m
   Forall (Forall (fun v => floor <= v)) (IR.iv_sigma (IR.m_step inv D t true floor m st)).
 Proof. exact (sigma_floor inv D t floor m st). Qed.
 Print Assumptions C13_ivector_covariances_at_or_above_floor.
+
+(* Validity is an INVARIANT of ML training: a machine with C components of nf features, positive weights and variances at or
+   above positive floors stays such a machine after every M-step on any non-empty data set, for any switches, floors binding
+   or not - and therefore after a whole training run, however many iterations it took; such a machine is a proper mixture
+   density (wf_gmm: the hypothesis of every likelihood theorem of C01/C03). *)
+Theorem C13_ml_m_step_preserves_validity (C nf : nat) (sw : MR.switches) (eps : R) (X : list (list R)) (mc : MR.machine) :
+  (0 < C)%nat -> X <> [] -> GMMStats.rows_ok nf X -> 0 < eps -> machine_ok C nf mc ->
+  machine_ok C nf (MR.ml_m_step sw eps (MR.e_step nf (MR.g mc) X) mc).
+Proof. exact (ml_m_step_ok C nf sw eps X mc). Qed.
+Print Assumptions C13_ml_m_step_preserves_validity.
+
+Theorem C13_ml_training_run_ends_in_a_valid_model (C nf : nat) (sw : MR.switches) (eps : R) (cthr : option R) (cap : nat)
+    (X : list (list R)) (mc mc' : MR.machine) (n : nat) (hist : list R) :
+  (0 < C)%nat -> X <> [] -> GMMStats.rows_ok nf X -> 0 < eps -> machine_ok C nf mc ->
+  MR.fit cap MR.ML sw eps cthr nf [X] mc = Some (mc', n, hist) ->
+  machine_ok C nf mc' /\ wf_gmm nf (MR.g mc').
+Proof. exact (fit_ok C nf sw eps cthr cap X mc mc' n hist). Qed.
+Print Assumptions C13_ml_training_run_ends_in_a_valid_model.
